@@ -736,6 +736,11 @@ impl World for VerifierWorld {
                 let buf = if k == Kind::SignOpen && rng.chance(1, 3) { 1 + rng.below(4) as u8 } else { 0 };
                 plan.push(Event::Deliver { fault: f, buf });
             }
+            if k == Kind::SignOpen && rng.chance(1, 2) {
+                // the genuine signed message into a buffer that is not exactly sized
+                // (accept or refuse is the implementation's choice; it must not panic)
+                plan.push(Event::Deliver { fault: Fault::None, buf: 1 + rng.below(4) as u8 });
+            }
             plan.push(Event::Deliver { fault: Fault::None, buf: 0 });
             plan.reverse();
             self.plan = plan;
@@ -775,7 +780,7 @@ impl World for VerifierWorld {
                 };
                 out.probe(&format!("verdict.{}", verdict));
                 out.note(&format!("deliver {} fault={} len={} -> {}", k.name(), fault.kind(), w.len(), verdict));
-                if *fault == Fault::None && !matches!(res, Ok(Some(true))) && k != Kind::PwStrNeedsRehash && self.cfg.special == 0 {
+                if *fault == Fault::None && *buf == 0 && !matches!(res, Ok(Some(true))) && k != Kind::PwStrNeedsRehash && self.cfg.special == 0 {
                     out.harness_error(format!("control delivery to {} was not accepted ({}) — harness or repo broken", k.name(), verdict));
                 }
                 if let Err((loc, msg)) = &res {
